@@ -758,11 +758,11 @@ private:
 		uint32_t scale, regime, bits;
 		if (m < 0) {
 			scale = -m;
-			regime = 0x40000000 >> scale;
+			regime = (scale > 30) ? 0 : (0x40000000 >> scale); // beyond the range the result is minpos/maxpos (below): do not shift by 32 or more
 		}
 		else {
 			scale = m + 1;
-			regime = 0x7FFFFFFF - (0x7FFFFFFF >> scale);
+			regime = (scale > 30) ? 0x7FFFFFFF : (0x7FFFFFFF - (0x7FFFFFFF >> scale));
 		}
 
 		if (scale > 30) {
@@ -803,11 +803,11 @@ private:
 		uint32_t scale, regime, bits;
 		if (m < 0) {
 			scale = -m;
-			regime = 0x40000000 >> scale;
+			regime = (scale > 30) ? 0 : (0x40000000 >> scale); // beyond the range the result is minpos/maxpos (below): do not shift by 32 or more
 		}
 		else {
 			scale = m + 1;
-			regime = 0x7FFFFFFF - (0x7FFFFFFF >> scale);
+			regime = (scale > 30) ? 0x7FFFFFFF : (0x7FFFFFFF - (0x7FFFFFFF >> scale));
 		}
 
 		if (scale > 30) {
@@ -862,11 +862,11 @@ private:
 		uint32_t reglen, regime, bits;
 		if (k < 0) {
 			reglen = -k;
-			regime = 0x4000'0000 >> reglen;
+			regime = (reglen > 30) ? 0 : (0x4000'0000 >> reglen); // beyond the range the result is minpos/maxpos (below): do not shift by 32 or more
 		}
 		else {
 			reglen = k + 1;
-			regime = 0x7FFF'FFFF - (0x7FFF'FFFF >> reglen);
+			regime = (reglen > 30) ? 0x7FFF'FFFF : (0x7FFF'FFFF - (0x7FFF'FFFF >> reglen));
 		}
 
 		if (reglen > 30) {
